@@ -92,6 +92,7 @@ type idWorld struct {
 	stepNo    int
 	name      string
 	expectJob []jobExpect
+	expectReplace *entry // set by queueAPI right before a legitimate replace-in-place call
 }
 
 type jobExpect struct {
@@ -152,6 +153,12 @@ func (w *idWorld) observe(what string) {
 		rec.Count("ids_issued", 1)
 		rec.Count("ids_issued/"+queueKind(q), 1)
 		rec.Eval(1)
+		if w.expectReplace != nil && *w.expectReplace == (entry{q, id}) {
+			// the direct API step asked to replace exactly this live message in place: same queue, same id
+			w.expectReplace = nil
+			rec.Count("ids_api_replace_in_place", 1)
+			continue
+		}
 		if id <= hwBefore {
 			// hwBefore = highest id seen COMMITTED in the store before this block. Put lines are
 			// tentative (the surrounding cache context / tx may still be rolled back, in which
@@ -672,6 +679,7 @@ func runIDs(c fw.Case, tier string, rec *fw.Recorder) {
 	}
 	lastKeepAlive := ch.Height
 	longSkips := p.LongSkips
+	ar := rand.New(rand.NewSource(c.Seed ^ 0x5eeda91)) // own stream for the direct queue-API steps (api.go)
 
 	for step := 0; step < p.Steps && rec.Violations() == 0; step++ {
 		w.stepNo = step
@@ -732,6 +740,9 @@ func runIDs(c fw.Case, tier string, rec *fw.Recorder) {
 			w.skipTo(50, "to prune")
 		default:
 			w.skip(1+r.Intn(30), "idle")
+		}
+		if ar.Intn(3) == 0 && rec.Violations() == 0 {
+			w.queueAPI(ar)
 		}
 		if ch.Height-lastKeepAlive > 1200 {
 			for _, v := range w.vals {
